@@ -19,6 +19,7 @@ use wgsl_to_wgpu::{
 };
 
 mod fuzz;
+mod inventory;
 
 thread_local! {
     static PANIC_MSG: RefCell<Option<String>> = const { RefCell::new(None) };
@@ -353,6 +354,15 @@ pub fn run_job(job: &Value, markers: bool) -> Value {
                 if let Err(e) = std::fs::write(p, text.as_bytes()) {
                     out["write_error"] = json!(format!("{e}"));
                 }
+            }
+            if job.get("canon_nosrc").and_then(|v| v.as_bool()).unwrap_or(false) {
+                out["canon_nosrc_sha"] = match inventory::canon_without_source(&text) {
+                    Some(c) => json!(hash_hex(c.as_bytes())),
+                    None => Value::Null,
+                };
+            }
+            if job.get("inv").and_then(|v| v.as_bool()).unwrap_or(false) {
+                out["inv"] = inventory::inventory(&text);
             }
             if job.get("text").and_then(|v| v.as_bool()).unwrap_or(false) {
                 out["text"] = json!(text);
